@@ -714,16 +714,27 @@ func fileEntryLaw(kind, text string) string {
 			}
 		case "Control":
 			c, err := control.ParseControlFile(sp)
-			_, rerr := control.ParseControl(bufio.NewReader(strings.NewReader(text)), abs)
+			ref, rerr := control.ParseControl(bufio.NewReader(strings.NewReader(text)), abs)
 			if (err == nil) != (rerr == nil) {
 				return fmt.Sprintf("FAIL ParseControlFile(%q): %v, ParseControl on the same text: %v", sp, err, rerr)
+			}
+			if err != nil && c != nil {
+				return fmt.Sprintf("FAIL ParseControlFile(%q) returns a value together with the error %v", sp, err)
 			}
 			if err == nil && c.Filename != abs {
 				return fmt.Sprintf("FAIL ParseControlFile(%q).Filename = %q, the file is %q", sp, c.Filename, abs)
 			}
+			if err == nil && (!reflect.DeepEqual(c.Source, ref.Source) || !reflect.DeepEqual(c.Binaries, ref.Binaries)) {
+				return fmt.Sprintf("FAIL ParseControlFile(%q) and ParseControl on the same text give different paragraphs", sp)
+			}
 		}
 	}
 	return "ok"
+}
+
+func init() {
+	// law: debian/control through ParseControlFile (every spelling of the path) = ParseControl
+	codecImpl["law-ctlfile"] = func(a []string) string { return fileEntryLaw("Control", core.MustUnHex(a[0])) }
 }
 
 func init() {
@@ -810,6 +821,9 @@ func streamDocs(g *core.G) {
 		}
 		args := append(schemaTokens(codecTypes["SourceParagraph"]), schemaTokens(codecTypes["BinaryParagraph"])...)
 		g.Emit("docctl", append(args, core.Hex(text))...)
+		if i%3 == 0 {
+			g.Emit("law-ctlfile", core.Hex(text))
+		}
 	}
 }
 
